@@ -29,7 +29,7 @@ Definition delta := list (N * ppat).
 
 Record pyflags := {
   f_fresh_simplify  : bool; (* D3 repaired: Instantiate.evar_is_free = self.simplify().evar_is_free *)
-  f_inst_extend     : bool; (* D5 repaired: Instantiate.instantiate extends inst with the unshadowed delta *)
+  f_inst_extend     : bool; (* D5 repaired: Instantiate.instantiate extends inst instead of pushing delta under it *)
   f_mv_keep_subst   : bool; (* MetaVar.apply_esubst/ssubst always wrap (no "declared fresh => drop"); D9d *)
   f_match_list_none : bool; (* D4a repaired: match() tests `submatch is None` *)
   f_assert_none     : bool; (* D4b repaired: Notation.assert_matches tests `is not None` *)
@@ -132,6 +132,28 @@ Definition expand_delta (d:delta) : list (N*pat) := map (fun kv => (fst kv, expa
 
 (** ================= the methods on [ppat] ================= *)
 
+(** metavars() (a Python set: compare up to order and multiplicity), pattern.py:124-509; structural *)
+Fixpoint metavars (p:ppat) : list N :=
+  match p with
+  | PEVar _ | PSVar _ | PSym _ => []
+  | PImp l r | PApp l r => metavars l ++ metavars r
+  | PEx _ q | PMu _ q => metavars q
+  | PMVar id _ _ _ _ _ => [id]
+  | PESub q _ plug | PSSub q _ plug => metavars q ++ metavars plug
+  | PInst q d =>
+      let dm := map (fun kv => (fst kv, metavars (snd kv))) d in
+      flat_map (fun v => match alookup v dm with Some l => l | None => [v] end) (metavars q)
+  end.
+
+Fixpoint p_metavars (p:pat) : list N :=
+  match p with
+  | EVar _ | SVar _ | Sym _ => []
+  | Imp l r | App l r => p_metavars l ++ p_metavars r
+  | Ex _ q | Mu _ q => p_metavars q
+  | MVar id _ _ _ _ _ => [id]
+  | ESub q _ plug | SSub q _ plug => p_metavars q ++ p_metavars plug
+  end.
+
 Definition drop_e (ef:list N) (x:N) : bool := negb (f_mv_keep_subst f) && mem x ef.
 
 Fixpoint py_inst (n:nat) (p:ppat) (d:delta) {struct n} : option ppat :=
@@ -150,11 +172,19 @@ Fixpoint py_inst (n:nat) (p:ppat) (d:delta) {struct n} : option ppat :=
   | PSSub q X plug => if isnil d then Some p else
       bind (py_inst n q d) (fun q' => bind (py_inst n plug d) (fun g => py_ssubst n q' X g))
   | PInst q d' =>
-      (* pattern.py:511-514 *)
-      bind (map_opt (fun kv => bind (py_inst n (snd kv) d) (fun v => Some (fst kv, v))) d') (fun d'' =>
-      let du := unshadowed d d' in
-      if f_inst_extend f then Some (PInst q (d'' ++ du))
-      else bind (py_inst n q du) (fun q' => Some (PInst q' d'')))
+      (* pattern.py Instantiate.instantiate *)
+      if f_inst_extend f then
+        (* repaired: an empty inst can neither shadow nor capture, instantiate the pattern itself;
+           otherwise keep the pattern and extend inst with the bindings of delta that are not shadowed
+           and that the pattern can mention *)
+        if isnil d' then bind (py_inst n q d) (fun q' => Some (PInst q' []))
+        else
+          bind (map_opt (fun kv => bind (py_inst n (snd kv) d) (fun v => Some (fst kv, v))) d') (fun d'' =>
+          Some (PInst q (d'' ++ filter (fun kv => mem (fst kv) (metavars q)) (unshadowed d d'))))
+      else
+        (* pinned: the unshadowed part of delta is pushed under the notation (D5) *)
+        bind (map_opt (fun kv => bind (py_inst n (snd kv) d) (fun v => Some (fst kv, v))) d') (fun d'' =>
+        bind (py_inst n q (unshadowed d d')) (fun q' => Some (PInst q' d'')))
   end end
 with py_esubst (n:nat) (p:ppat) (x:N) (plug:ppat) {struct n} : option ppat :=
   match n with O => None | S n =>
@@ -238,28 +268,6 @@ Fixpoint py_fresh (n:nat) (p:ppat) (x:N) {struct n} : option bool :=
              | kv::t => bind (py_fresh n (snd kv) x) (fun r => if r then Some true else any t)
              end) d)
   end end.
-
-(** metavars() (a Python set: compare up to order and multiplicity), pattern.py:124-509; structural *)
-Fixpoint metavars (p:ppat) : list N :=
-  match p with
-  | PEVar _ | PSVar _ | PSym _ => []
-  | PImp l r | PApp l r => metavars l ++ metavars r
-  | PEx _ q | PMu _ q => metavars q
-  | PMVar id _ _ _ _ _ => [id]
-  | PESub q _ plug | PSSub q _ plug => metavars q ++ metavars plug
-  | PInst q d =>
-      let dm := map (fun kv => (fst kv, metavars (snd kv))) d in
-      flat_map (fun v => match alookup v dm with Some l => l | None => [v] end) (metavars q)
-  end.
-
-Fixpoint p_metavars (p:pat) : list N :=
-  match p with
-  | EVar _ | SVar _ | Sym _ => []
-  | Imp l r | App l r => p_metavars l ++ p_metavars r
-  | Ex _ q | Mu _ q => p_metavars q
-  | MVar id _ _ _ _ _ => [id]
-  | ESub q _ plug | SSub q _ plug => p_metavars q ++ p_metavars plug
-  end.
 
 (** ================= matching (pattern.py:12-77) ================= *)
 
